@@ -83,7 +83,7 @@ def check_factor_shape(B, dsizes, wshape, rep, elems):
     return items, f
 
 
-def check_binding(fggs, torch, label_type, label_terminal, fac_dsizes, pre_bound, domains):
+def check_binding(fggs, torch, label_type, label_terminal, fac_dsizes, pre_bound, domains, variant=0):
     """add_factor succeeds iff terminal, arity and every domain match and the label is unbound"""
     g = fggs.FGG('S')
     for name, n in domains.items():
@@ -98,9 +98,16 @@ def check_binding(fggs, torch, label_type, label_terminal, fac_dsizes, pre_bound
         except (ValueError, KeyError):
             ok_pre = False
     doms = [fggs.FiniteDomain(list(range(n))) for n in fac_dsizes]
+    # content variants of equal size: 1/2 = first/last domain with other values, 3 = first domain a RangeDomain, 4 = last domain reordered
+    if variant and fac_dsizes:
+        k = 0 if variant in (1, 3) else len(doms) - 1
+        n = fac_dsizes[k]
+        doms[k] = (fggs.RangeDomain(n) if variant == 3 else
+                   fggs.FiniteDomain(list(reversed(range(n)))) if variant == 4 else fggs.FiniteDomain(list(range(1, n + 1))))
+    same_content = not (variant and fac_dsizes) or (variant == 4 and fac_dsizes[-1] <= 1)
     fac = fggs.FiniteFactor(doms, torch.zeros(*fac_dsizes) if fac_dsizes else torch.tensor(0.))
     should = (label_terminal and len(fac_dsizes) == len(label_type)
-              and all(l in domains and domains[l] == n for l, n in zip(label_type, fac_dsizes)) and not ok_pre)
+              and all(l in domains and domains[l] == n for l, n in zip(label_type, fac_dsizes)) and not ok_pre and same_content)
     before = dict(g.factors)
     try:
         g.add_factor(el, fac)
@@ -108,7 +115,7 @@ def check_binding(fggs, torch, label_type, label_terminal, fac_dsizes, pre_bound
     except ValueError:
         did = False
     if did != should:
-        p.append(f'add_factor {"succeeded" if did else "was rejected"} for label type {label_type} terminal={label_terminal}, factor sizes {fac_dsizes}, domains {domains}, already bound={ok_pre}')
+        p.append(f'add_factor {"succeeded" if did else "was rejected"} for label type {label_type} terminal={label_terminal}, factor sizes {fac_dsizes}, content variant {variant}, domains {domains}, already bound={ok_pre}')
     if not did and dict(g.factors) != before:
         p.append('rejected add_factor changed the factors')
     if did:
